@@ -11,8 +11,9 @@ RULE = ("seeded volume directory files: every text field of the volume descripto
         "in between, spare areas blank; opened through open_alos2. evaluations = root attributes compared; distinct = distinct "
         "(file-pointer count, timestamp class, fs) signatures plus text classes")
 ASSUMPTIONS = ["contents begin and end with a non-blank character, so 'stripped of padding' has one reading; printable ASCII only",
+               "padding = blanks, or trailing NUL bytes (a zero-initialised buffer); leading NULs are not generated",
                "the creation date-time is compared as an instant (ISO 8601 text parsed back)"]
-REQUIRED_OBS = ["products", "attributes_compared"]
+REQUIRED_OBS = ["products", "attributes_compared", "nul_padded_fields", "many_file_pointers"]
 N = {"quick": 600, "thorough": 20000}
 
 
@@ -24,6 +25,8 @@ def run_case(i, tier, seed):
     rng = random.Random(f"C16-{seed}-{i}")
     classes = {}
     n_fp = i % 17
+    if i % 23 == 9:
+        n_fp = rng.choice([99, 100, 101, 120, 257])  # the count field has four digits
     inst, icls = gen.rand_instant(rng, ["d60", "d366", "d1", "d365", "rand", "last_ms", "first_ms", "dst-gap", "y2000"][i % 9])
     vol, vinfo = gen.full_volume(rng, n_fp=n_fp, inst=inst, classes=classes)
     if i % 9 == 0:  # every text field at full width
@@ -31,6 +34,19 @@ def run_case(i, tier, seed):
             for f in synth.fields(rec):
                 if f["kind"] == "A_str" and not synth.is_spare(f) and f["name"] in vol[key] and (rec, f["name"]) not in gen.CONSTRAINED:
                     vol[key][f["name"]] = gen.str_text(rng, f["width"], "full")[0]
+    if i % 3 == 2:
+        # the count may be written zero-padded, left-justified or with an explicit sign (any valid ASCII integer formatting)
+        vol["vd"]["number_of_file_pointer_records"] = rng.choice([f"{n_fp:04d}", ["L", str(n_fp)], f"+{n_fp}" if n_fp < 1000 else str(n_fp)])
+    nul_padded = []
+    if i % 7 == 3:
+        # text fields padded with NUL bytes instead of blanks (a writer copying into a zero-initialised buffer): padding all the same
+        for rec, key in (("vd", "vd"), ("txt", "txt")):
+            for f in synth.fields(rec):
+                v = vol[key].get(f["name"])
+                if f["kind"] == "A_str" and not gen.is_padding(f) and (rec, f["name"]) not in gen.CONSTRAINED and isinstance(v, str) \
+                        and len(v) < f["width"] and rng.random() < 0.5:
+                    vol[key][f["name"]] = ["raw", v + "\0" * (f["width"] - len(v))]
+                    nul_padded.append(f["name"])
     blanked = []
     if i % 4 == 1:  # a field that is entirely padding surfaces as the empty string
         for rec, key in (("vd", "vd"), ("txt", "txt")):
@@ -54,5 +70,5 @@ def run_case(i, tier, seed):
         synth.uninstall(files, root, kind)
     violations = [{"what": p, "detail": {"n_fp": n_fp, "instant": inst}} for p in problems[:6]]
     sig = [f"fp:{n_fp}|t:{icls}|{kind}|blank:{min(len(blanked), 3)}"] + [f"class:{c}" for c in classes]
-    return {"sig": sig, "evals": n, "violations": violations, "obs": {"products": 1, "attributes_compared": n},
+    return {"sig": sig, "evals": n, "violations": violations, "obs": {"products": 1, "attributes_compared": n, "nul_padded_fields": len(nul_padded), "many_file_pointers": int(n_fp >= 99)},
             "sample": {"file_pointer_records": n_fp, "creation_instant": inst, "fs": kind}, "nontrivial": n > 0}
